@@ -1,7 +1,6 @@
 SPECIFICATION Spec
 CONSTANTS
   MaxWeight = 3
-  MaxOps = 30
   Rich = TRUE
 VIEW View
 CONSTRAINT Bound
